@@ -3,7 +3,8 @@
 import json, os, sys
 ROOT = os.path.dirname(os.path.abspath(__file__))
 sys.path.insert(0, ROOT)
-from props_meta import PROPS, NOT_APPLICABLE, HOOK_COMMITS
+from props_meta import PROPS, not_applicable, HOOK_COMMITS
+NOT_APPLICABLE = not_applicable()
 
 checks = []
 for pid in sorted(PROPS):
